@@ -17,6 +17,9 @@ def validate_encoded(string):
       " for f: floats; for csi: signed integers; for CSI: unsigned integers)")
 
 def validate_decoded(numeric_array):
+  if isinstance(numeric_array, list) and \
+     not isinstance(numeric_array, gfapy.NumericArray):
+    numeric_array = gfapy.NumericArray(numeric_array)
   numeric_array.validate()
 
 def unsafe_encode(obj):
